@@ -22,164 +22,10 @@ package snapshot
 // driven from the real call sites (spec.json "native_hooks").
 
 import (
-	"io"
-	"log"
 	"os"
 	"path/filepath"
 	"strings"
-
-	"github.com/hashicorp/raft"
-	"github.com/rqlite/rqlite/v10/internal/rsync"
 )
-
-// ---------------------------------------------------------------- worlds
-
-// vWALSeq counts the WALs written into the world, in the order in which they apply.
-var vWALSeq int
-
-func vWALName(i int) string { return "0000000" + string(rune('1'+i)) + walfileSuffix }
-
-// vDBContent / vWALContent: what a data file holds. Symbolic: header + tokens (one token per WAL).
-// Native: real SQLite files (fsmodel.go vNativeFixtures: WAL j creates table t<j> with one row).
-func vDBContent() []byte {
-	if verifSymbolic() {
-		return vSQLiteHdr
-	}
-	vNativeFixtures()
-	return vNativeDB
-}
-
-func vWALContent(seq int) []byte {
-	if verifSymbolic() {
-		return append(append([]byte(nil), vWALHdr...), byte('a'+seq))
-	}
-	vNativeFixtures()
-	return vNativeWAL[seq]
-}
-
-// vPutSnapshot writes a complete snapshot directory (full: data.db; nWAL WAL files).
-func vPutSnapshot(dir, id string, index, term uint64, full bool, nWAL int) {
-	sd := filepath.Join(dir, id)
-	vMust(os.MkdirAll(sd, 0o755))
-	vMust(writeMeta(sd, &raft.SnapshotMeta{Version: 1, ID: id, Index: index, Term: term}))
-	if full {
-		vWriteData(filepath.Join(sd, dbfileName), vDBContent())
-	}
-	for i := 0; i < nWAL; i++ {
-		vWriteData(filepath.Join(sd, vWALName(i)), vWALContent(vWALSeq))
-		vWALSeq++
-	}
-}
-
-// vBareStore is a Store over the directory as NewStore builds it, minus the reaper goroutine and
-// the start-up check (the harness calls check itself), and with the once-per-lifetime checksum
-// verification marked as already done (C12 is about that).
-func vBareStore(dir string) *Store {
-	s := &Store{
-		dir:            dir,
-		fullNeededPath: filepath.Join(dir, fullNeededFile),
-		reapPlanPath:   filepath.Join(dir, reapPlanFile),
-		logger:         log.New(io.Discard, "", 0),
-		catalog:        &SnapshotCatalog{},
-		mrsw:           rsync.NewMultiRSW(),
-		reapDisabled:   &rsync.AtomicBool{},
-		noVerifyDB:     &rsync.AtomicBool{},
-		reapThreshold:  defaultReapThreshold,
-		reapCh:         make(chan struct{}, 1),
-		reapDoneCh:     make(chan struct{}),
-		observers:      newObserverSet(),
-	}
-	s.verifyOnce.Do(func() {})
-	return s
-}
-
-// ---------------------------------------------------------------- what a store directory holds
-
-type vView struct {
-	ok      bool   // the catalog scan succeeded and there is a newest snapshot that resolves
-	why     string // why not
-	n       int    // number of snapshots
-	index   uint64 // of the newest snapshot
-	term    uint64
-	content string // the database content the newest snapshot resolves to
-	crcOK   bool   // every data file matches its checksum record
-}
-
-// vContent is the database content a (database file, WAL files) resolution stands for: the
-// database with the WALs applied in order.
-func vContent(dbPath string, wals []string) (string, error) {
-	if verifSymbolic() {
-		n := vFS.file(dbPath)
-		if n == nil || !vIsValidSQLiteFile(dbPath) {
-			return "", vErrNotExist
-		}
-		data := n.data
-		for _, w := range wals {
-			wn := vFS.file(w)
-			if wn == nil || !vIsValidSQLiteWALFile(w) {
-				return "", vErrNotExist
-			}
-			data = vApplyWAL(data, wn.data)
-		}
-		return string(data[len(vSQLiteHdr):]), nil
-	}
-	return vNativeRestore(dbPath, wals)
-}
-
-// vObserve looks at a store directory through the real catalog.
-func vObserve(dir string) vView {
-	v := vView{}
-	set, err := (&SnapshotCatalog{}).Scan(dir)
-	if err != nil {
-		v.why = "scan: " + err.Error()
-		return v
-	}
-	v.n = set.Len()
-	newest, ok := set.Newest()
-	if !ok {
-		v.why = "no snapshot"
-		return v
-	}
-	v.index, v.term = newest.raftMeta.Index, newest.raftMeta.Term
-	dbf, wals, err := set.ResolveFiles(newest.id)
-	if err != nil || dbf == nil {
-		v.why = "resolve failed"
-		return v
-	}
-	paths := []string{}
-	for _, w := range wals {
-		paths = append(paths, w.Path)
-	}
-	v.content, err = vContent(dbf.Path, paths)
-	if err != nil {
-		v.why = "content: " + err.Error()
-		return v
-	}
-	v.crcOK = true
-	for _, sn := range set.All() {
-		files := append([]*ChecksummedFile(nil), sn.walFiles...)
-		if sn.dbFile != nil {
-			files = append(files, sn.dbFile)
-		}
-		for _, f := range files {
-			if ok, err := f.Check(); err != nil || !ok {
-				v.crcOK = false
-			}
-		}
-	}
-	v.ok = true
-	return v
-}
-
-// vLeftovers reports plan files and temporary entries in the store directory.
-func vLeftovers(dir string) bool {
-	for _, name := range vList(dir) {
-		if name == reapPlanFile || isTmpName(name) {
-			return true
-		}
-	}
-	return false
-}
 
 // ---------------------------------------------------------------- the scenario
 
@@ -271,8 +117,12 @@ func vCheckRecovered(dir string, pre vView, tag string) {
 	verifAssert("C07-"+tag+"-newest-term-unchanged", post.term == pre.term)
 	verifAssert("C07-"+tag+"-newest-resolves-to-same-database", post.content == pre.content)
 	verifAssert("C07-"+tag+"-checksum-records-match", post.crcOK)
+	verifAssert("C07-"+tag+"-directories-named-after-snapshot-ids", post.idsOK)
 	verifAssert("C07-"+tag+"-no-plan-or-temporary-left", !vLeftovers(dir))
 }
+
+// vSweepLastOp describes where the reap died (read by the native sweep test).
+var vSweepLastOp string
 
 // vReap runs the real reap on a fresh Store value over dir.
 func vReap(dir string, sh vShape) error {
@@ -298,12 +148,17 @@ func vCrashScenario(sh vShape, repairs int) (root, dir string, pre vView, crashe
 		verifAssume(at == vCr.count+1)
 		verifAssert("C07-reap-without-crash-succeeds", rerr == nil)
 		verifReach("no-crash")
+		vSweepLastOp = "no crash"
 	} else {
+		vSweepLastOp = "before " + vCr.op + " " + filepath.Base(vCr.path)
 		crashes++
 		vMarkCrash(dir)
 	}
 	for i := 0; i < repairs; i++ {
 		n2 := vCountPoints(func() { vBareStore(dir).check() })
+		if i == 0 && verifSymbolic() {
+			println("PTS", sh.older, sh.olderIncs, sh.fullWALs, sh.incs, sh.walsPerInc, sh.noVerifyDB, at, n2)
+		}
 		k := verifChoice(verifName("crashInRepair", i), n2+1) // 0: this repair is not interrupted
 		if k == 0 {
 			break
